@@ -128,6 +128,11 @@ def discover(P, E):
                             vr = _roots(P, x, x.operand_prov(a))
                             if _any_alias(vr, R):
                                 hit = hit or "stores-receiver"
+                            # X.replace(handle) / X.insert(handle): the same store as `*X = Some(handle)`
+                            if k.path in ("std::option::Option::replace", "std::option::Option::insert", "std::option::Option::get_or_insert"):
+                                for g in vr:
+                                    if g[1] == "ret" and _call_chain_owns(P, E, P.bodies[g[0]], g[2], R):
+                                        hit = hit or "stores-subscription-owning-receiver"
                     # (*guard of X) = Some(value from a call whose closure args own r)
                     for bi in sorted(x.reach):
                         for s in x.blocks[bi]["stmts"]:
